@@ -16,7 +16,7 @@ EXTENDS GrpcCall
 CONSTANTS
   NH,           \* handler operations before it returns
   MaxHdr, MaxTrl,
-  Outcomes,     \* subset of {"resp", "nilresp", "err"}: what the handler returns
+  Outcomes,     \* subset of {"resp", "nilresp", "err", "resperr"}: what the handler returns
   CancelKinds,  \* subset of {"cancel", "deadline"}
   FixClosed,    \* TRUE: on a closed channel a done context wins, and the server stops
                 \* delivering frames at the first write that met a done context (the repaired code)
@@ -109,22 +109,32 @@ HDecodeCall ==
                  msgOut, readAfterReturn, nhdr, ntrl, ncancel>>
 
 \* reqMu.Lock(); if reqGone { return Canceled }; return cloner.Copy(out, req)
-HDecodeRet ==
+\* -- the critical section: the check and the copy are one step (Invoke cannot
+\* return in between: its deferred "reqGone = true" takes the same mutex)
+HDecodeCopy ==
   /\ spc = "handler" /\ decoded = "calling"
-  /\ decoded' = "done"
   /\ IF FixDecode /\ cpc = "returned"
-       THEN /\ UNCHANGED readAfterReturn
-            /\ Ev_HRecvRet([k |-> "err", code |-> 1, st |-> 0, raw |-> FALSE], 0)
-            /\ Viol(Chk_HRecvRet([k |-> "err", code |-> 1, st |-> 0, raw |-> FALSE], 0))
-            /\ Emit("HRecvRet", 0, [k |-> "err", code |-> 1, st |-> 0, raw |-> FALSE], 0, <<>>, <<>>)
-       ELSE /\ readAfterReturn' = (readAfterReturn \/ cpc = "returned")
-            /\ Ev_HRecvRet(RNil, 1) /\ Viol(Chk_HRecvRet(RNil, 1)) /\ Emit("HRecvRet", 0, RNil, 1, <<>>, <<>>)
+       THEN decoded' = "refused" /\ UNCHANGED readAfterReturn
+       ELSE decoded' = "copied" /\ readAfterReturn' = (readAfterReturn \/ cpc = "returned")
+  /\ UNCHANGED vars /\ NoViol /\ Quiet
   /\ UNCHANGED <<ch, chClosed, spc, cpc, hdrs, hdrsSent, tlrs, outcome, gotResponse, hdrOut, trlOut,
                  msgOut, bud, nhdr, ntrl, ncancel>>
 
+\* the decode callback returns to the handler (Invoke may have returned meanwhile)
+HDecodeRet ==
+  /\ spc = "handler" /\ decoded \in {"copied", "refused"}
+  /\ decoded' = "done"
+  /\ IF decoded = "refused"
+       THEN /\ Ev_HRecvRet([k |-> "err", code |-> 1, st |-> 0, raw |-> FALSE], 0)
+            /\ Viol(Chk_HRecvRet([k |-> "err", code |-> 1, st |-> 0, raw |-> FALSE], 0))
+            /\ Emit("HRecvRet", 0, [k |-> "err", code |-> 1, st |-> 0, raw |-> FALSE], 0, <<>>, <<>>)
+       ELSE /\ Ev_HRecvRet(RNil, 1) /\ Viol(Chk_HRecvRet(RNil, 1)) /\ Emit("HRecvRet", 0, RNil, 1, <<>>, <<>>)
+  /\ UNCHANGED <<ch, chClosed, spc, cpc, hdrs, hdrsSent, tlrs, outcome, gotResponse, hdrOut, trlOut,
+                 msgOut, readAfterReturn, bud, nhdr, ntrl, ncancel>>
+
 \* grpc.SetHeader / grpc.SendHeader / grpc.SetTrailer on the handler's context
 HSetHeader(send) ==
-  /\ spc = "handler" /\ bud > 0 /\ nhdr < MaxHdr /\ decoded # "calling"
+  /\ spc = "handler" /\ bud > 0 /\ nhdr < MaxHdr /\ decoded \in {"no", "done"}
   /\ bud' = bud - 1 /\ nhdr' = nhdr + 1
   /\ LET ok == ~hdrsSent IN
        /\ hdrs' = IF ok THEN Append(hdrs, nhdr + 1) ELSE hdrs
@@ -138,7 +148,7 @@ HSetHeader(send) ==
                  decoded, readAfterReturn, ntrl, ncancel>>
 
 HSetTrailer ==
-  /\ spc = "handler" /\ bud > 0 /\ ntrl < MaxTrl /\ decoded # "calling"
+  /\ spc = "handler" /\ bud > 0 /\ ntrl < MaxTrl /\ decoded \in {"no", "done"}
   /\ bud' = bud - 1 /\ ntrl' = ntrl + 1
   /\ tlrs' = Append(tlrs, ntrl + 1)
   /\ Ev_HSetTrailerRet(ntrl + 1, TRUE) /\ NoViol /\ Emit("HSetTrailerRet", ntrl + 1, RNil, 0, <<>>, <<>>)
@@ -147,11 +157,12 @@ HSetTrailer ==
 
 \* the handler returns
 HReturnDo(o) ==
-  /\ spc = "handler" /\ o \in Outcomes /\ decoded # "calling"
-  /\ outcome' = o
+  /\ spc = "handler" /\ o \in Outcomes /\ decoded \in {"no", "done"}
+  \* ("resperr": a response together with an error; the error wins)
+  /\ outcome' = IF o = "resperr" THEN "err" ELSE o
   /\ spc' = "handled"
-  /\ Ev_HReturn(StRec(IF o = "err" THEN 1 ELSE 0), IF o = "resp" THEN 1 ELSE 0) /\ NoViol
-  /\ Emit("HReturn", IF o = "err" THEN 1 ELSE 0, RNil, IF o = "resp" THEN 1 ELSE 0, <<>>, <<>>)
+  /\ Ev_HReturn(StRec(IF o \in {"err", "resperr"} THEN 1 ELSE 0), IF o \in {"resp", "resperr"} THEN 1 ELSE 0) /\ NoViol
+  /\ Emit("HReturn", IF o \in {"err", "resperr"} THEN 1 ELSE 0, RNil, IF o \in {"resp", "resperr"} THEN 1 ELSE 0, <<>>, <<>>)
   /\ UNCHANGED <<ch, chClosed, cpc, hdrs, hdrsSent, tlrs, gotResponse, hdrOut, trlOut, msgOut,
                  decoded, readAfterReturn, bud, nhdr, ntrl, ncancel>>
 
@@ -239,7 +250,7 @@ Terminated ==
   /\ UNCHANGED allvars
 
 Next ==
-  \/ CStart \/ SrvStart \/ HDecodeCall \/ HDecodeRet \/ HSetHeader(TRUE) \/ HSetHeader(FALSE) \/ HSetTrailer
+  \/ CStart \/ SrvStart \/ HDecodeCall \/ HDecodeCopy \/ HDecodeRet \/ HSetHeader(TRUE) \/ HSetHeader(FALSE) \/ HSetTrailer
   \/ \E o \in Outcomes : HReturnDo(o)
   \/ SrvHandled \/ SrvWrite \/ SrvClose
   \/ CliTake \/ CliClosed \/ CliCtxDone
